@@ -314,6 +314,13 @@ func (w *world) c2cOp() {
 		if rng.Intn(6) == 0 {
 			to = w.senders[rng.Intn(len(w.senders))].Address
 		}
+		if rng.Intn(4) == 0 { // recipients nobody holds a key for: the zero address, a random one, an embedded-looking non-contract
+			to = w.pickAddr()
+			if rng.Intn(2) == 0 {
+				to = types.ZeroAddress
+			}
+			w.out.Count("deep:mint-to-odd-recipient")
+		}
 		kp := t.owner
 		if rng.Intn(8) == 0 {
 			kp = w.senders[rng.Intn(len(w.senders))]
